@@ -62,8 +62,14 @@ func runC04(c *engine.Ctx, tier string) {
 	// (3) nothing new while synchronizing
 	c.Al = proposalAliases(c.P)
 	c.Guard(engine.Guard{ID: "C04.3", Pkg: pkgProposalCtl, Min: 1, Sel: engine.Sel{Call: sbSet},
-		Require: "!(@CFG.Status.State == config/v2.ConfigurationStatus_SYNCHRONIZING) && !(@CFG.Status.Applied.Mastership.Term < @CFG.Status.Mastership.Term)",
-		Why:     "the previously applied configuration is pushed again before anything new"})
+		Require: "!(@CFG.Status.State == config/v2.ConfigurationStatus_SYNCHRONIZING) && (@CFG.Status.State == config/v2.ConfigurationStatus_PERSISTED || !(@CFG.Status.Applied.Mastership.Term < @CFG.Status.Mastership.Term))",
+		Why:     "the previously applied configuration is pushed again before anything new (a persistent target is never pushed again: there is no term to wait for)"})
+	// (3b) … and a persistent target is not made to wait for a re-synchronisation that never comes (F53)
+	c.Outcome(engine.Outcome{ID: "C04.3b", Pkg: pkgProposalCtl, Root: "Reconciler.Reconcile", Min: 1, Consistent: true,
+		When: "err(@P) == nil && @P.Status.Phases.Apply != nil && @P.Status.Phases.Apply.State == config/v2.ProposalApplyPhase_APPLYING && err(@CFG) == nil && !(@CFG.Status.Applied.Index >= @OWN) && !(@PREV != 0 && @CFG.Status.Applied.Index != @PREV) && " +
+			"@CFG.Status.State == config/v2.ConfigurationStatus_PERSISTED && @CFG.Status.Applied.Mastership.Term < @CFG.Status.Mastership.Term && @CFG.Status.Mastership.Master != \"\"",
+		Must: []engine.Sel{{Call: "store/topo.Store.Get"}},
+		Why:  "the configuration controller never advances the applied term of a persistent target: an apply that waited for it would wait for ever"})
 	// (4) sent == recorded
 	sentEqualsRecorded(c)
 	c.Guard(engine.Guard{ID: "C04.4b", Pkg: pkgProposalCtl, Min: 1,
@@ -80,7 +86,7 @@ func runC04(c *engine.Ctx, tier string) {
 	// (5) offline branches
 	for i, w := range []string{
 		"@CFG.Status.State == config/v2.ConfigurationStatus_SYNCHRONIZING",
-		"@CFG.Status.Applied.Mastership.Term < @CFG.Status.Mastership.Term",
+		"@CFG.Status.State != config/v2.ConfigurationStatus_PERSISTED && @CFG.Status.Applied.Mastership.Term < @CFG.Status.Mastership.Term",
 		"@CFG.Status.Mastership.Master == \"\"",
 		"#errIs(store/topo.Store.Get|errors.IsNotFound)",
 		"err(@REL) == nil && controller/utils.GetOnosConfigID() != {@REL}topo.Object.GetRelation().SrcEntityID",
